@@ -1342,4 +1342,29 @@ theorem run_inserts_BInv (cfg : Cfg) (hR : 1 ≤ cfg.degreeBound) (steps : List 
         · exact hnd3 c.id h c.id (List.mem_map.mpr ⟨c, List.mem_flatMap.mpr ⟨st', hst', hc⟩, rfl⟩) rfl
 
 
+/-! ### what a well-formed graph gives the search -/
+
+theorem key_edges_isSome (g : Graph) (i : Id) (h : i ∈ g.keys) : (g.edges i).isSome = true := by
+  unfold Graph.edges
+  obtain ⟨n, hn, rfl⟩ := List.mem_map.mp h
+  cases hf : g.nodes.find? (fun m => m.1 == n.1) with
+  | some _ => rfl
+  | none =>
+    have := List.find?_eq_none.mp hf n hn
+    simp at this
+
+/-- what a WF graph guarantees to the search: the entry node has a vector, every point with a vector has a
+node, and the points with a vector other than the entry node are exactly the live points carrying the field -/
+theorem wf_view (R : Nat) (g : Graph) (L : List Id) (h : WF R g L) :
+    g.view.hasVec entry = true ∧ (∀ i, g.view.hasVec i = true → i ∈ g.vecs) ∧
+    (∀ i, g.view.hasVec i = true → (g.view.edges i).isSome) ∧ (∀ i, g.view.hasVec i = true → i = entry ∨ i ∈ L) := by
+  obtain ⟨⟨_, _, hkv, _⟩, _, _, hkl, _⟩ := (C10_wf_meaning_aux R g L).mp h
+  have hv : ∀ i, g.view.hasVec i = true ↔ i ∈ g.vecs := by
+    intro i; simp [Graph.view, Graph.hasVec]
+  refine ⟨(hv _).mpr ((hkv _).mp ((hkl _).mpr (Or.inl rfl))), fun i hi => (hv i).mp hi, ?_, ?_⟩
+  · intro i hi
+    exact key_edges_isSome g i ((hkv i).mpr ((hv i).mp hi))
+  · intro i hi
+    exact (hkl i).mp ((hkv i).mpr ((hv i).mp hi))
+
 end Sema.C03
